@@ -160,7 +160,8 @@ Section Chain.
       apply errs_bind; [apply emit_file_of_errs; exact IHf|]. intros o1 _.
       apply errs_bind; [|intros; apply errs_ok].
       destruct (reference_partial cfg); [apply errs_ok|].
-      destruct (lookup k (sections_subgroups seg)) as [others|] eqn:Hl; [|apply errs_ok].
+      destruct (lookup k (subgroups_for seg f)) as [others|] eqn:Hl; [|apply errs_ok].
+      apply subgroups_for_sub in Hl.
       apply fold_out_errs. intros other ws1 Hother.
       apply IHn.
       + constructor; [apply mem_str_not_In; exact Hmem | exact Hnd].
@@ -462,10 +463,10 @@ Proof. cbn [mem_str]. rewrite String.eqb_refl. reflexivity. Qed.
 
 (* a section that is a member of its own sub-group, expanded for an entry that emits at it: the
    generation of that entry never succeeds ... *)
-Lemma self_cycle_never_ok rt sty cfg seg sections f n stack s others base ws :
+Lemma self_cycle_never_ok_for rt sty cfg seg sections f n stack s others base ws :
   reference_partial cfg = false ->
   In s (sections_here f s sections) ->
-  lookup s (sections_subgroups seg) = Some others -> In s others ->
+  lookup s (subgroups_for seg f) = Some others -> In s others ->
   forall o, emit_sff rt sty cfg seg sections f n stack s base ws <> Ok o.
 Proof.
   intros Href Hhere Hl Hin o H. destruct n as [|n]; [rewrite emit_sff_O in H; discriminate|].
@@ -478,12 +479,25 @@ Proof.
   rewrite emit_sff_S, mem_str_head in Hs. discriminate.
 Qed.
 
+(* the entry is not a group: a group does not expand the sub-groups itself (its files do), so for
+   a group the statement would be false, e.g. a group without files generates nothing *)
+Lemma self_cycle_never_ok rt sty cfg seg sections f n stack s others base ws :
+  reference_partial cfg = false ->
+  fi_kind f <> KGroup ->
+  In s (sections_here f s sections) ->
+  lookup s (sections_subgroups seg) = Some others -> In s others ->
+  forall o, emit_sff rt sty cfg seg sections f n stack s base ws <> Ok o.
+Proof.
+  intros Href Hk Hhere Hl. apply self_cycle_never_ok_for; try assumption.
+  rewrite (subgroups_for_leaf seg f Hk). exact Hl.
+Qed.
+
 (* ... and when the section is the first member and the entry itself is emitted without error, the
    error value is the cycle error naming the segment and the section *)
-Lemma self_cycle_detected rt sty cfg seg sections f n stack s rest base ws :
+Lemma self_cycle_detected_for rt sty cfg seg sections f n stack s rest base ws :
   reference_partial cfg = false ->
   fi_section_order f = [] ->
-  lookup s (sections_subgroups seg) = Some (s :: rest) ->
+  lookup s (subgroups_for seg f) = Some (s :: rest) ->
   mem_str s stack = false ->
   (exists o, emit_file_of rt sty cfg seg sections f base s ws = Ok o) ->
   emit_sff rt sty cfg seg sections f (S (S n)) stack s base ws = Err (ESubgroupCycle (sg_name seg) s).
@@ -491,6 +505,20 @@ Proof.
   intros Href Hso Hl Hmem [o Ho]. rewrite emit_sff_S, Hmem, (sections_here_plain _ _ _ Hso).
   cbn [fold_out]. rewrite Ho. cbn [bind]. rewrite Href, Hl. cbn [fold_out].
   rewrite emit_sff_S, mem_str_head. reflexivity.
+Qed.
+
+Lemma self_cycle_detected rt sty cfg seg sections f n stack s rest base ws :
+  reference_partial cfg = false ->
+  fi_kind f <> KGroup ->
+  fi_section_order f = [] ->
+  lookup s (sections_subgroups seg) = Some (s :: rest) ->
+  mem_str s stack = false ->
+  (exists o, emit_file_of rt sty cfg seg sections f base s ws = Ok o) ->
+  emit_sff rt sty cfg seg sections f (S (S n)) stack s base ws = Err (ESubgroupCycle (sg_name seg) s).
+Proof.
+  intros Href Hk Hso Hl.
+  apply (self_cycle_detected_for rt sty cfg seg sections f n stack s rest); try assumption.
+  rewrite (subgroups_for_leaf seg f Hk). exact Hl.
 Qed.
 
 (* an object file that is not excluded and whose path needs no option is emitted without error *)
@@ -510,7 +538,8 @@ Lemma cycle_detected_object rt sty cfg seg sections f s base ws p :
   Err (ESubgroupCycle (sg_name seg) s).
 Proof.
   intros Href Hsub He Hk Hso Hp. unfold chain_fuel.
-  apply (self_cycle_detected rt sty cfg seg sections f _ [] s [] base ws Href Hso).
+  assert (Hng : fi_kind f <> KGroup) by (rewrite Hk; discriminate).
+  apply (self_cycle_detected rt sty cfg seg sections f _ [] s [] base ws Href Hng Hso).
   - rewrite Hsub. cbn [lookup]. rewrite String.eqb_refl. reflexivity.
   - reflexivity.
   - eapply emit_file_of_object_ok; eassumption.
@@ -578,7 +607,7 @@ Section Acyclic.
           rewrite Forall_forall in IHf, Hkids. apply (IHf c Hc). apply Hkids. exact Hc. }
       intros o1 _. apply errs_bind; [|intros; apply errs_ok].
       destruct (reference_partial cfg); [apply errs_ok|].
-      destruct (lookup k (sections_subgroups seg)) as [others|] eqn:Hl; [|apply errs_ok].
+      destruct (lookup k (subgroups_for seg f)) as [others|] eqn:Hl; [|apply errs_ok].
       apply fold_out_errs. intros other ws1 Hother. apply IHn.
       pose proof (Hdec section k others other Hk Hl Hother) as Hlt.
       intros x [Hx|Hx]; [subst; exact Hlt | apply Hrank in Hx; lia].
@@ -869,6 +898,14 @@ Definition ex19_cyclic_indirect : document_serial :=
                      (Value [(".text", [".text.hot"]); (".text.hot", [".text.cold"]);
                              (".text.cold", [".text"])])].
 
+(* a group without files in a segment whose ".text" contains itself: built directly (the parser
+   refuses an empty `files`), it shows why the cycle theorems ask for an entry that is not a group *)
+Definition ex19_cyclic_seg : segment :=
+  Segment "boot" [] None None None None "" None no_conds [".text"] [] None None None
+          None None [] [] true None [(".text", [".text"])] KAbsent.
+
+Definition ex19_empty_group : file_info := FileInfo "" KGroup "" 0 "" "" [] [] "" no_conds KAbsent.
+
 (* three levels of sub-groups without a cycle *)
 Definition ex19_acyclic_subgroups : list (string * list string) :=
   [(".text", [".text.hot"; ".text.cold"]); (".text.hot", [".text.hot.inner"])].
@@ -909,6 +946,7 @@ Lemma ex19_acyclic_decreasing f :
 Proof.
   intros Hso section k others other Hk Hl Hother.
   rewrite (sections_here_plain _ _ _ Hso) in Hk. destruct Hk as [Hk|[]]. subst k.
+  apply subgroups_for_sub in Hl.
   cbn [sections_subgroups ex19_acyclic_subgroups lookup] in Hl.
   destruct (String.eqb section ".text") eqn:E1.
   - apply String.eqb_eq in E1. subst section. inversion Hl; subst others.
